@@ -333,6 +333,21 @@ static int op_h_write_stdout(int argc, char **argv, FILE *out)
         fprintf(out, "rc=%d", rc);
         return 0;
 }
+/* convert_file <infile> <outfile> <fmt> : read an alignment file, linearise it the way kalign_msa_compare does for its operands (finalise_alignment when the
+   reader says ALIGNED) and write it in <fmt> -> "rc=<rc> aligned_in=<status> n=<numseq>" */
+static int op_convert(int argc, char **argv, FILE *out)
+{
+        if(argc != 3) return 1;
+        struct msa *msa = NULL;
+        int rc = kalign_read_input(argv[0], &msa, 1);
+        if(rc != OK || !msa){ fputs("rc=1 read", out); if(msa) kalign_free_msa(msa); return 0; }
+        int st = msa->aligned;
+        if(msa->aligned == ALN_STATUS_ALIGNED) rc = finalise_alignment(msa);
+        if(rc == OK) rc = kalign_write_msa(msa, argv[1], argv[2]);
+        fprintf(out, "rc=%d aligned_in=%d n=%d", rc == OK ? 0 : 1, st, msa->numseq);
+        kalign_free_msa(msa);
+        return 0;
+}
 /* arr_detect <seq>... : kalign_arr_to_msa on the strings -> "rc=<rc> biotype=<b> n=<numseq>" (the class the in-memory entry point concludes) */
 static int op_arr_detect(int argc, char **argv, FILE *out)
 {
@@ -384,6 +399,7 @@ struct kv_op kv_ops_sys[] = {
         {"h_write", op_h_write},
         {"h_write_stdout", op_h_write_stdout},
         {"arr_detect", op_arr_detect},
+        {"convert_file", op_convert},
         {"h_compare", op_h_compare},
         {"h_free", op_h_free},
         {"readfile", op_readfile},
